@@ -1,12 +1,14 @@
 use crate::rt::synchronize::Synchronize;
-use std::{any::Any, collections::HashMap};
+use std::{any::Any, collections::BTreeMap};
 
 pub(crate) struct Set {
-    /// Registered statics.
-    statics: Option<HashMap<StaticKeyId, StaticValue>>,
+    /// Registered statics. Ordered: they are dropped in the order of this map
+    /// at the end of the execution, and their destructors may perform loom
+    /// operations, so the order must be the same in every iteration.
+    statics: Option<BTreeMap<StaticKeyId, StaticValue>>,
 }
 
-#[derive(Eq, PartialEq, Hash, Copy, Clone)]
+#[derive(Eq, PartialEq, Ord, PartialOrd, Hash, Copy, Clone)]
 pub(crate) struct StaticKeyId(usize);
 
 pub(crate) struct StaticValue {
@@ -18,7 +20,7 @@ impl Set {
     /// Create an empty statics set.
     pub(crate) fn new() -> Set {
         Set {
-            statics: Some(HashMap::new()),
+            statics: Some(BTreeMap::new()),
         }
     }
 
@@ -27,10 +29,10 @@ impl Set {
             self.statics.is_none(),
             "lazy_static was not dropped during execution"
         );
-        self.statics = Some(HashMap::new());
+        self.statics = Some(BTreeMap::new());
     }
 
-    pub(crate) fn drop(&mut self) -> HashMap<StaticKeyId, StaticValue> {
+    pub(crate) fn drop(&mut self) -> BTreeMap<StaticKeyId, StaticValue> {
         self.statics
             .take()
             .expect("lazy_statics were dropped twice in one execution")
@@ -57,7 +59,7 @@ impl Set {
             .expect("attempted to access lazy_static during shutdown")
             .entry(StaticKeyId::new(key));
 
-        if let std::collections::hash_map::Entry::Occupied(_) = v {
+        if let std::collections::btree_map::Entry::Occupied(_) = v {
             unreachable!("told to init static, but it was already init'd");
         }
 
